@@ -198,24 +198,41 @@ func zzC15_path() {
 	buf := make([]byte, 16)
 	opts := make(Options, 0, 8)
 	opts = opts.Add(Option{ID: URIHost, Value: []byte("h")})
+	opts = opts.Add(Option{ID: LocationPath, Value: []byte("loc")})
 	opts = opts.Add(Option{ID: URIPath, Value: []byte("old")})
 	opts = opts.Add(Option{ID: ContentFormat, Value: []byte{0}})
-	got, _, err := opts.SetPath(buf, p)
+	// the same for the Uri-Path and for the Location-Path flavour of the operation
+	loc := symChoose("location-path", 2) == 1
+	var got Options
+	var err error
+	if loc {
+		got, _, err = opts.SetLocationPath(buf, p)
+	} else {
+		got, _, err = opts.SetPath(buf, p)
+	}
 	symAssert(err == nil, "SetPath succeeds for short segments")
 	if err != nil {
 		return
 	}
 	back, perr := got.Path()
+	other, oerr := got.LocationPath()
+	untouched := "/loc"
+	if loc {
+		back, perr = got.LocationPath()
+		other, oerr = got.Path()
+		untouched = "/old"
+	}
 	want := zzNormalise(p)
 	symObserve("path", back)
+	symAssert(oerr == nil && other == untouched, "setting one kind of path leaves the other kind of path option alone")
 	if n == 0 {
 		symCover("empty")
-		symAssert(perr == nil && back == "/old", "an empty path leaves the options unchanged")
+		symAssert(perr == nil && (back == "/old" || back == "/loc"), "an empty path leaves the options unchanged")
 		return
 	}
 	if want == "" {
 		symCover("only-slashes")
-		symAssert(perr != nil || back == "", "a path without segments yields no Uri-Path options")
+		symAssert(perr != nil || back == "", "a path without segments yields no path options of that kind")
 	} else {
 		symCover("segments")
 		symAssert(perr == nil && back == want, "SetPath then Path returns the normalised path")
